@@ -47,7 +47,7 @@ def nearmiss_programs(ctx, rng, n):
         if sc["res"]["rec"] != "no":
             continue
         # C09's premise: no doc-comment line *starts with* a lowercase keyword. Keep the listed near-miss classes only.
-        if ln["opener"] == "/*" or ln["pre"] == "text" or ln["kw"] in ("Immutable", "at_space_immutable", "no_at_immutable") \
+        if ln["opener"] == "/*" or ln["pre"] in ("text", "slashes", "slashes0", "tabslashes") or ln["kw"] in ("Immutable", "at_space_immutable", "no_at_immutable") \
                 or (ln["kw"] in ("immutable", "testonly", "mutable", "packageonly", "constructor", "implements") and ln["rest"] and ln["rest"][0] in ("L", "U", "D")):
             text, _parts = gen_grammar.line_text(ln)
             inert.append(text)
@@ -66,6 +66,11 @@ def nearmiss_programs(ctx, rng, n):
             # a trailing comment of the previous declaration, one empty line above a declaration whose own doc is a directive
             d = d.replace("func TF(n int) int { return n }", "var tuning = 3 // @testonly tuning knob\n\n//go:noinline\nfunc TF(n int) int { return n }", 1)
             d = d.replace("type PT struct{ X int }", "const limit = 8 // @packageonly limit\n\n//go:generate echo PT\ntype PT struct{ X int }", 1)
+        if i % 3 == 2:
+            # trailing comments of the type specs themselves (single and grouped) and of a method
+            d = d.replace("type PT struct{ X int }", "type PT struct{ X int } // @packageonly once the callers are gone", 1)
+            d = d.replace("type TT struct{ X int }", "type (\n\tTT struct{ X int } // @testonly\n\tTTaux struct{ X int } // @immutable\n)", 1)
+            d = d.replace("type S struct{}", "type S struct{} // @immutable", 1)
         pkgs = [{"path": "m/d", "name": "d", "files": [{"name": "d/d.go", "src": d}]}]
         for p in ("u", "w"):
             src, _where = gen_all.use_file(p, "%s/a.go" % p, codes=non_impl)
